@@ -7,6 +7,7 @@ import (
 	"fmt"
 	"math/rand"
 	"runtime"
+	"strings"
 	"sync"
 	"sync/atomic"
 	"testing"
@@ -172,20 +173,28 @@ func TestVerifC16Memory(t *testing.T) {
 	run.Floor("overlap_runs", 100)
 	run.Floor("ops_during_close_after_latch", 100)
 	scope := []string{"tunnox-core/internal/core/storage/memory"}
-	for done := 0; done < n && run.Violations() < 20; done += batch {
+	for done := 0; done < n && run.Violations() < 20 && run.Counter("leak_violations") < 3; done += batch {
 		snap := vk.SnapshotGoroutines()
+		sampled := false
 		for b := 0; b < batch && done+b < n; b++ {
-			c16MemoryTrial(run, r, done+b, ks, racers)
+			var ls vk.LeakSnapshot
+			if !sampled {
+				ls = snap
+			}
+			if c16MemoryTrial(run, r, done+b, ks, racers, ls) {
+				sampled = true
+			}
 		}
 		if l := snap.Leaked(scope, nil, 3*time.Second); len(l) > 0 {
 			sum := vk.FrameSummary(l)
-			run.Violation("C16:memory|goroutine-left|"+sum[0], map[string]any{"batch_start": done, "leaked": len(l), "frames": sum, "stack": l[0].Stack})
+			run.Violation("C16:memory|goroutine-left|"+c16LeakFn(sum[0]), map[string]any{"batch_start": done, "leaked": len(l), "frames": sum, "stack": l[0].Stack})
+			run.Count("leak_violations", 1) // after 3 the test stops: every further trial would wait the full poll interval
 		}
 		run.Count("leak_checks", 1)
 	}
 }
 
-func c16MemoryTrial(run *vk.Run, r *rand.Rand, trial int, ks []int, racers []string) {
+func c16MemoryTrial(run *vk.Run, r *rand.Rand, trial int, ks []int, racers []string, leakSnap vk.LeakSnapshot) (usedSnap bool) {
 	k := ks[r.Intn(len(ks))]
 	racer := racers[r.Intn(len(racers))]
 	cleanupRunning := r.Intn(2) == 0
@@ -246,7 +255,7 @@ func c16MemoryTrial(run *vk.Run, r *rand.Rand, trial int, ks []int, racers []str
 	maxIn, ok := c16RunRace(fns, k, spins)
 	if !ok {
 		run.Count("watchdog", 1)
-		return
+		return false
 	}
 	run.Max("max_concurrent_closers", int64(maxIn))
 	if maxIn >= 2 {
@@ -258,6 +267,25 @@ func c16MemoryTrial(run *vk.Run, r *rand.Rand, trial int, ks []int, racers []str
 	}
 	if !s.IsClosed() {
 		run.Violation("C16:memory|not-closed-after-close", map[string]any{"case": desc})
+	}
+	// the cleanup goroutine must have been told to stop by Close (it exits iff StopCleanup
+	// ran, which clears cleanupRunning); checked before the post-close pass, whose own
+	// StopCleanup call would otherwise hide a cleaner that Close left running
+	s.mu.RLock()
+	stillRunning := s.cleanupRunning
+	s.mu.RUnlock()
+	if stillRunning {
+		run.Violation("C16:memory|cleanup-goroutine-running-after-close", map[string]any{"case": desc})
+	}
+	if cleanupRunning && leakSnap != nil {
+		// real goroutine diff for the first such trial of each batch
+		if l := leakSnap.Leaked([]string{"tunnox-core/internal/core/storage/memory"}, nil, time.Second); len(l) > 0 {
+			sum := vk.FrameSummary(l)
+			run.Violation("C16:memory|goroutine-left|"+c16LeakFn(sum[0]), map[string]any{"case": desc, "leaked": len(l), "frames": sum, "stack": l[0].Stack})
+			run.Count("leak_violations", 1)
+		}
+		run.Count("leak_checks_right_after_close", 1)
+		usedSnap = true
 	}
 	// first operation on the closed storage
 	c16Guard(run, "first-after-close", first, s, key, desc)
@@ -274,4 +302,13 @@ func c16MemoryTrial(run *vk.Run, r *rand.Rand, trial int, ks []int, racers []str
 	if got := handlerRuns.Load(); got != 1 {
 		run.Violation(fmt.Sprintf("C16:memory|cleanup-handler-runs=%d", got), map[string]any{"case": desc, "when": "after-post-close-calls"})
 	}
+	return usedSnap
+}
+
+// c16LeakFn strips the (varying) goroutine state from a vk.FrameSummary entry.
+func c16LeakFn(s string) string {
+	if i := strings.Index(s, "tunnox-core/"); i >= 0 {
+		return s[i:]
+	}
+	return s
 }
